@@ -28,6 +28,7 @@ from biom import Table, load_table
 from biom.cli.table_converter import _convert
 
 from . import tables
+from .clirun import biom as run_biom
 from .core import REPO
 
 ID = 'C03'
@@ -108,7 +109,7 @@ def run_rt(c):
                 with open(p, encoding='utf-8', newline='') as fh:
                     text = fh.read()
             elif c['mode'] == 'cli':
-                text = cli_export(t, o, tmp)
+                text = cli_export(t, c, tmp)
             else:
                 text = t.to_tsv(header_key=o['hk'], header_value=o['hv'], metadata_formatter=FORMATTERS[fmt_name])
                 if c.get('direct'):
@@ -144,7 +145,10 @@ def run_rt(c):
             elif mode == 'convert':
                 t2 = reprocess(load_table(os.path.join(tmp, 't.tsv')), c['process'] if o['hk'] else None, tmp)
             elif mode == 'cli':
-                t2 = cli_import(os.path.join(tmp, 't.tsv'), c['process'] if o['hk'] else None, tmp)
+                t2 = cli_import(os.path.join(tmp, 't.tsv'), c, tmp)
+                md = t2.metadata()
+                obs['extra'] = {'type': t2.type, 'smd': None if md is None else [tables.plain(dict(m)) for m in md],
+                                'file': c.pop('_written', None)}
             else:
                 raise ValueError(mode)
             obs['back'] = snap_back(t2)
@@ -152,6 +156,7 @@ def run_rt(c):
             obs['back'] = err(e)
         return obs
     finally:
+        c.pop('_written', None)
         if tmp:
             shutil.rmtree(tmp, ignore_errors=True)
 
@@ -180,34 +185,91 @@ def reprocess(t2, process, tmp):
     return load_table(p)
 
 
-def _biom(args):
-    env = dict(os.environ, PYTHONPATH=REPO, PYTHONIOENCODING='utf-8', LC_ALL='C.UTF-8', LANG='C.UTF-8')
-    r = subprocess.run([sys.executable, '-W', 'ignore', '-c', 'from biom.cli import cli; cli()'] + args,
-                       env=env, stdout=subprocess.PIPE, stderr=subprocess.PIPE, timeout=120)
-    if r.returncode != 0:
-        raise RuntimeError('biom %s failed: %s' % (' '.join(args), r.stderr.decode('utf-8', 'replace')[-300:]))
+TABLE_TYPES = ['OTU table', 'Pathway table', 'Function table', 'Ortholog table', 'Gene table', 'Metabolite table',
+               'Taxon table', 'Table']
+SMAP_COLS = ['pH', 'site']
 
 
-def cli_export(t, o, tmp):
+def plain_id(i):
+    """an id a default mapping file can name: MetadataMap.from_file removes quotes and edge blanks"""
+    return '"' not in i and i == i.strip() and not i.startswith('#') and i != ''
+
+
+def smap_lines(c):
+    sids = c['spec']['sids']
+    return ['#SampleID\t' + '\t'.join(SMAP_COLS)] + ['%s\t%d.5\tsite %d' % (i, k, k) for k, i in enumerate(sids)]
+
+
+def omap_lines(c):
+    return ['#OTUID\tconf'] + ['%s\t0.%d' % (i, k) for k, i in enumerate(c['spec']['oids'])]
+
+
+def cli_export(t, c, tmp):
+    """`biom convert --to-tsv` on a JSON or HDF5 file of the table"""
+    o, k = c['opts'], c['cli']
     src = os.path.join(tmp, 'src.biom')
-    with open(src, 'w', encoding='utf-8') as fh:
-        fh.write(t.to_json('c03'))
+    if k['src'] == 'json':
+        with open(src, 'w', encoding='utf-8') as fh:
+            fh.write(t.to_json('c03'))
+    else:
+        import h5py
+        with h5py.File(src, 'w') as fh:
+            t.to_hdf5(fh, 'c03')
     out = os.path.join(tmp, 't.tsv')
     args = ['convert', '-i', src, '-o', out, '--to-tsv', '--tsv-metadata-formatter', o['fmt']]
     if o['hk'] is not None:
         args += ['--header-key', o['hk'], '--output-metadata-id', o['hv']]
-    _biom(args)
+    run_biom(args, k['how'])
     with open(out, encoding='utf-8', newline='') as fh:
         return fh.read()
 
 
-def cli_import(path, process, tmp):
+def cli_import(path, c, tmp):
+    """`biom convert` of the TSV file back to JSON / HDF5 with every option the wrapper forwards"""
+    o, k = c['opts'], c['cli']
     out = os.path.join(tmp, 'back.biom')
-    args = ['convert', '-i', path, '-o', out, '--to-json']
-    if process:
-        args += ['--process-obs-metadata', process]
-    _biom(args)
+    args = ['convert', '-i', path, '-o', out, '--to-json' if k['back'] == 'json' else '--to-hdf5']
+    if o['hk']:
+        args += ['--process-obs-metadata', c['process']]
+    if k['table_type']:
+        args += ['--table-type', k['table_type']]
+    if k['smap']:
+        p = os.path.join(tmp, 'smap.txt')
+        with open(p, 'w', encoding='utf-8', newline='') as fh:
+            fh.write(''.join(x + '\n' for x in smap_lines(c)))
+        args += ['-m', p]
+    if k['omap']:
+        p = os.path.join(tmp, 'omap.txt')
+        with open(p, 'w', encoding='utf-8', newline='') as fh:
+            fh.write(''.join(x + '\n' for x in omap_lines(c)))
+        args += ['--observation-metadata-fp', p]
+    if k['collapsed'] == 'samples':
+        args.append('--collapsed-samples')
+    if k['collapsed'] == 'observations':
+        args.append('--collapsed-observations')
+    run_biom(args, k['how'])
+    import h5py
+    c['_written'] = 'hdf5' if h5py.is_hdf5(out) else 'json'
     return load_table(out)
+
+
+def cli_expected(c, omd):
+    """what the options of the import command add to the re-imported table: (type, sample metadata,
+    observation metadata), from the documentation of the options, in plain python"""
+    k = c['cli']
+    ttype = k['table_type'] or 'Table'
+    smd = None
+    if k['smap']:
+        smd = [{'pH': '%d.5' % n, 'site': 'site %d' % n} if plain_id(i) else {} for n, i in enumerate(c['spec']['sids'])]
+        if all(not e for e in smd):
+            smd = None
+    if k['omap'] and omd is not None:
+        omd = [dict(e, conf='0.%d' % n) for n, e in enumerate(omd)]
+    if k['collapsed'] == 'samples' and smd is not None:
+        smd = [{'collapsed_ids': sorted(e)} for e in smd]
+    if k['collapsed'] == 'observations' and omd is not None:
+        omd = [{'collapsed_ids': sorted(e)} for e in omd]
+    return ttype, smd, omd
 
 
 def run_text(c):
@@ -376,7 +438,13 @@ def decode(tree, c):
         return {'back': dec_result(tree[0], lambda t: dec_table(t, b))}
     lines = dec_result(tree[0], lambda ls: [uncps(x) for x in ls])
     back = dec_result(tree[1], lambda t: dec_table(t, b))
-    return {'lines': lines, 'back': back}
+    out = {'lines': lines, 'back': back}
+    if c['mode'] == 'cli' and isinstance(back, dict):
+        # the options of the real command the Coq model does not know: reference values
+        ttype, smd, omd = cli_expected(c, back['omd'])
+        back['omd'] = omd
+        out['extra'] = {'type': ttype, 'smd': smd, 'file': c['cli']['back']}
+    return out
 
 
 # ------------------------------------------------------------------ oracle (the property text)
@@ -449,11 +517,26 @@ def oracle(c, obs):
     want = [[fval(v) for v in row] for row in spec['mat']]
     if [[float(v) for v in row] for row in back['mat']] != [[float(v) for v in row] for row in want]:
         fails.append('matrix %r came back as %r' % (want, back['mat']))
+    want_omd = None
     if o['hk']:
         got = back['omd']
         exp = [(e or {}).get(o['hk']) for e in spec['omd']]
-        if got is None or [m.get(o['hv']) for m in got] != exp:
+        want_omd = [{o['hv']: v} for v in exp]
+        collapsed = c['mode'] == 'cli' and c['cli']['collapsed'] == 'observations'
+        if not collapsed and (got is None or [m.get(o['hv']) for m in got] != exp):
             fails.append('category %r exported as %r came back as %r, expected %r' % (o['hk'], o['hv'], got, exp))
+    if c['mode'] == 'cli':
+        ttype, smd, omd = cli_expected(c, want_omd)
+        ex = obs.get('extra') or {}
+        if ex.get('type') != ttype:
+            fails.append('biom convert --table-type %r wrote type %r, expected %r' % (c['cli']['table_type'], ex.get('type'), ttype))
+        if ex.get('file') != c['cli']['back']:
+            fails.append('biom convert --to-%s wrote a %s file' % (c['cli']['back'], ex.get('file')))
+        if ex.get('smd') != smd:
+            fails.append('biom convert -m: sample metadata %r, expected %r' % (ex.get('smd'), smd))
+        if (c['cli']['omap'] or c['cli']['collapsed'] == 'observations') and back['omd'] != omd:
+            fails.append('biom convert --observation-metadata-fp/--collapsed-observations: observation metadata %r, expected %r'
+                         % (back['omd'], omd))
     return fails[:3]
 
 
@@ -642,6 +725,44 @@ def gen_text(rng):
     return {'kind': 'text', 'lines': lines, 'process': base['process']}
 
 
+def gen_cli(rng, tier, how):
+    """a promised table through the real `biom convert` command, both directions, options varied within
+    what the file formats in between can carry (HDF5 pads ragged lists and wants uniform categories)"""
+    for _ in range(50):
+        c = gen_rt(rng, tier, True)
+        if promised(c):
+            break
+    else:
+        return c
+    c.pop('direct', None)
+    c['mode'] = 'cli'
+    o, spec = c['opts'], c['spec']
+    strings = o['hk'] is None or o['fmt'] == 'naive'
+    all_plain_s = all(plain_id(i) for i in spec['sids'])
+    all_plain_o = all(plain_id(i) for i in spec['oids'])
+    k = {'how': how, 'src': 'json', 'back': 'json', 'table_type': rng.choice([None, None] + TABLE_TYPES),
+         'smap': False, 'omap': False, 'collapsed': None}
+    uniform = spec.get('omd') is None or len(set(tuple(sorted(e)) for e in spec['omd'])) == 1
+    if uniform and (strings or o['hk'] == 'taxonomy') and rng.random() < 0.4:
+        k['src'] = 'hdf5'
+        if o['hk'] == 'taxonomy' and any(set(e) != {'taxonomy'} for e in spec['omd']):
+            k['src'] = 'json'
+    if strings and rng.random() < 0.6:
+        k['back'] = 'hdf5'
+    if rng.random() < 0.5 and (k['back'] == 'json' or all_plain_s):
+        k['smap'] = True
+    if o['hk'] and all_plain_o and rng.random() < 0.4:
+        k['omap'] = True
+    if k['back'] == 'hdf5':
+        r = rng.random()
+        if r < 0.4 and k['smap']:
+            k['collapsed'] = 'samples'
+        elif r < 0.8 and o['hk']:
+            k['collapsed'] = 'observations'
+    c['cli'] = k
+    return c
+
+
 def gen(rng, tier):
     yield {'kind': 'contract', 'what': 'num', 'seed': rng.randrange(2 ** 31), 'n': 20000}
     yield {'kind': 'contract', 'what': 'ws'}
@@ -650,13 +771,12 @@ def gen(rng, tier):
         yield gen_rt(rng, tier)
     for _ in range(n // 2):
         yield gen_text(rng)
+    # the real command (click wrapper + option forwarding): in process in every tier
+    for _ in range(60 if tier == 'quick' else 300):
+        yield gen_cli(rng, tier, 'inproc')
     if tier == 'thorough':
         for _ in range(40):
-            c = gen_rt(rng, tier, True)
-            if promised(c):
-                c['mode'] = 'cli'
-                c.pop('direct', None)
-            yield c
+            yield gen_cli(rng, tier, 'subprocess')
 
 
 def nontrivial(c):
@@ -673,7 +793,16 @@ def classify(c):
     if c['kind'] == 'text':
         return ['text']
     spec = c['spec']
-    tags = ['rt', 'mode:' + c['mode'], 'promised' if promised(c) else 'not-promised:' + c.get('malformed', 'other')]
+    tags = []
+    if c['mode'] == 'cli':
+        k = c['cli']
+        tags += ['cli:' + k['how'], 'cli:src-' + k['src'], 'cli:back-' + k['back']]
+        tags += ['cli:' + n for n in ('smap', 'omap') if k[n]]
+        if k['table_type']:
+            tags.append('cli:table-type')
+        if k['collapsed']:
+            tags.append('cli:collapsed-' + k['collapsed'])
+    tags += ['rt', 'mode:' + c['mode'], 'promised' if promised(c) else 'not-promised:' + c.get('malformed', 'other')]
     r, k = len(spec['oids']), len(spec['sids'])
     if k == 1:
         tags.append('shape:single-sample')
